@@ -102,8 +102,16 @@ pub fn db_text_variant(v: u32) -> String {
                 l = format!("{} Firefox,Chrome,MSIE,Opera,Safari,curl,Wget,webOS,Android,Konqueror,Googlebot,{}", head, body.trim());
             }
         }
+        // a label that has no signatures of its own (a class reserved for later, signatures commented out): in
+        // front of a section's first label, or between two labels further down
+        if t.starts_with("label") && (section.starts_with("[tcp:") || section.starts_with("[http:")) && r.chance(1, 40) {
+            out.push_str(if section.starts_with("[tcp:") { "label = s:unix:SimReserved:\n\n" } else { "label = s:!:SimReserved:\n\n" });
+        }
         out.push_str(&l);
         out.push('\n');
+        if (section.starts_with("[tcp:") || section.starts_with("[http:")) && t.starts_with('[') && r.chance(1, 2) {
+            out.push_str(if section.starts_with("[tcp:") { "label = g:unix:SimEmptyFirst:\n\n" } else { "label = s:!:SimEmptyFirst:\n\n" });
+        }
         if (t.starts_with("[tcp:request]") || t.starts_with("[tcp:response]")) && r.chance(2, 3) {
             // signatures for what the simulated hosts send without an MSS option (option layouts nop,nop,ts and none),
             // under a label of this section's own: the same observation is then known to both sections, differently
@@ -136,6 +144,21 @@ pub fn db_text_variant(v: u32) -> String {
     out
 }
 
+/// Signatures for HTTP/2 messages, built through the database's public fields: one per direction, permissive
+/// (every listed header optional), so that generated HTTP/2 messages are within matching distance.
+fn add_http2_signatures(db: &mut Database) {
+    use huginn_net_db::http::{Header, Signature, Version};
+    use huginn_net_db::{Label, Type};
+    let opt = |names: &[&str]| -> Vec<Header> { names.iter().map(|n| Header { optional: true, name: n.to_string(), value: None }).collect() };
+    let label = |name: &str| Label { ty: Type::Specified, class: Some("!".to_string()), name: name.to_string(), flavor: Some("2.x".to_string()) };
+    let mut req = db.http_request.entries.clone();
+    req.push((label("SimH2Client"), vec![Signature { version: Version::V20, horder: opt(&["user-agent", "accept", "accept-encoding", "accept-language", "cookie"]), habsent: vec![], expsw: String::new() }]));
+    db.http_request = huginn_net_db::db::FingerprintCollection::new(req);
+    let mut resp = db.http_response.entries.clone();
+    resp.push((label("SimH2Server"), vec![Signature { version: Version::V20, horder: opt(&["server", "content-type", "content-length", "date"]), habsent: vec![], expsw: String::new() }]));
+    db.http_response = huginn_net_db::db::FingerprintCollection::new(resp);
+}
+
 type DbPair = (Arc<Database>, &'static Database);
 
 fn db_pair() -> DbPair {
@@ -156,7 +179,15 @@ fn db_pair() -> DbPair {
             let text = db_text_variant(v);
             // a rewrite the loader rejects falls back to the bundled database (the loader's own totality is C01's DbText entry)
             match (text.parse::<Database>(), text.parse::<Database>()) {
-                (Ok(a), Ok(b)) => (Arc::new(a), Box::leak(Box::new(b)) as &'static Database),
+                (Ok(mut a), Ok(mut b)) => {
+                    // every other rewrite also carries signatures only the API can express: HTTP/2 ones (the text
+                    // grammar has version tokens 0, 1 and * only, and * stands for 1.0 and 1.1)
+                    if v % 2 == 0 {
+                        add_http2_signatures(&mut a);
+                        add_http2_signatures(&mut b);
+                    }
+                    (Arc::new(a), Box::leak(Box::new(b)) as &'static Database)
+                }
                 _ => bundled.clone(),
             }
         })
@@ -307,12 +338,20 @@ pub struct IpSpec {
 pub struct SubnetSpec {
     /// (network address, prefix length)
     pub nets: Vec<(IpAddr, u8)>,
+    /// the same rules as the operator wrote them: an interface address with its prefix length (bits set below the
+    /// prefix), which names the same CIDR block. When present this is what the analyzer under test is given, while
+    /// the oracle's filter is built from the canonical `nets`.
+    #[serde(default)]
+    pub as_written: Vec<(IpAddr, u8)>,
     pub check_src: bool,
     pub check_dst: bool,
 }
 
 macro_rules! mk_filter {
-    ($krate:ident, $spec:expr) => {{
+    ($krate:ident, $spec:expr) => {
+        mk_filter!($krate, $spec, true)
+    };
+    ($krate:ident, $spec:expr, $written:expr) => {{
         use pnet::ipnetwork::{Ipv4Network, Ipv6Network};
         let spec: &FilterSpec = $spec;
         let mut f = $krate::FilterConfig::new().mode(if spec.deny { $krate::FilterMode::Deny } else { $krate::FilterMode::Allow });
@@ -339,7 +378,8 @@ macro_rules! mk_filter {
         if let Some(s) = &spec.subnet {
             let mut v4 = vec![];
             let mut v6 = vec![];
-            for (a, p) in &s.nets {
+            let rules = if $written && !s.as_written.is_empty() { &s.as_written } else { &s.nets };
+            for (a, p) in rules {
                 match a {
                     IpAddr::V4(x) => {
                         if let Ok(n) = Ipv4Network::new(*x, (*p).min(32)) {
@@ -361,6 +401,10 @@ macro_rules! mk_filter {
 
 pub fn filter_tcp(spec: &FilterSpec) -> huginn_net_tcp::FilterConfig {
     mk_filter!(huginn_net_tcp, spec)
+}
+/// the filter with every subnet rule in its canonical spelling (the oracle's reading of the rules)
+pub fn filter_canonical(spec: &FilterSpec) -> huginn_net_tcp::FilterConfig {
+    mk_filter!(huginn_net_tcp, spec, false)
 }
 pub fn filter_http(spec: &FilterSpec) -> huginn_net_http::FilterConfig {
     mk_filter!(huginn_net_http, spec)
@@ -542,12 +586,47 @@ pub struct Timed {
     pub conn: usize,
 }
 
+thread_local! {
+    /// fault "the wall clock steps": (simulated time ns, step in ms), applied by `advance_clock_to` when the
+    /// simulated time passes them - keyed by time, not by packet, so that a sub-trace replayed alone meets the
+    /// same steps at the same moments
+    static WALL_JUMPS: std::cell::RefCell<Vec<(u64, i64)>> = const { std::cell::RefCell::new(Vec::new()) };
+}
+
+/// Install the wall-clock steps of the run that starts now (call right after `clock::arm`).
+pub fn set_wall_jumps(mut v: Vec<(u64, i64)>) {
+    v.sort();
+    WALL_JUMPS.with(|w| *w.borrow_mut() = v);
+}
+
+/// Move the simulated clocks to `t`, applying the wall-clock steps that fall due on the way.
+pub fn advance_clock_to(t: u64) {
+    loop {
+        let due = WALL_JUMPS.with(|w| {
+            let mut w = w.borrow_mut();
+            if w.first().map(|j| j.0 <= t).unwrap_or(false) {
+                Some(w.remove(0))
+            } else {
+                None
+            }
+        });
+        match due {
+            Some((at, ms)) => {
+                clock::advance_to_ns(at);
+                clock::wall_jump_ms(ms);
+            }
+            None => break,
+        }
+    }
+    clock::advance_to_ns(t);
+}
+
 /// Run a trace through a fresh analyzer with the per-packet path, advancing the simulated clock.
 pub fn run_deliver(cfg: &SutCfg, trace: &[Timed]) -> Result<Vec<PktOut>, String> {
     let mut s = Sut::new(cfg)?;
     let mut out = Vec::with_capacity(trace.len());
     for p in trace {
-        clock::advance_to_ns(p.t);
+        advance_clock_to(p.t);
         out.push(s.deliver(&p.frame));
     }
     Ok(out)
@@ -598,7 +677,7 @@ pub fn run_loop_refilter(cfg: &SutCfg, trace: &[Timed], breaks: &[usize], refilt
                 if i >= *stop_at.borrow() {
                     return None;
                 }
-                clock::advance_to_ns(trace[i].t);
+                advance_clock_to(trace[i].t);
                 *idx.borrow_mut() = i + 1;
                 Some(Ok(trace[i].frame.clone()))
             };
